@@ -5,15 +5,18 @@ from .base import viol
 
 ID = "C20"
 LEVEL = "exploration"
-TIERS = {"quick": {"cases": 64, "wall": 100, "min_nontrivial": 100, "sizes": [1, 2, 4, 8, 16]},
-         "thorough": {"cases": 200, "wall": 1800, "min_nontrivial": 400, "sizes": [1, 2, 4, 8, 16, 32, 64]}}
+TIERS = {"quick": {"cases": 400, "wall": 100, "min_nontrivial": 300, "sizes": [1, 2, 4, 8, 16]},
+         "thorough": {"cases": 800, "wall": 1800, "min_nontrivial": 600, "sizes": [1, 2, 4, 8, 16, 32, 64]}}
 STEP_BUDGET = 3_000_000
 CASE_WALL = 900
 RULE = ("fixed catalogue of size-indexed input families (nesting: parentheses, array-element nests, IF, ELSE-IF chains in "
         "IF, block DO, labelled DO/CONTINUE, shared-label DO, SELECT CASE, WHERE, ASSOCIATE, BLOCK, component chains, "
         "nested array constructors, non-block labelled DO closed by action statements; repetition: n assignments, n "
         "labelled one-line loops, n-term sums/products/concats, n-way ELSE IF, n CASE blocks, n units, n continuation "
-        "lines, n-argument calls) and, on the thorough tier, compositions of two families. Metric 1 = Base.__new__ "
+        "lines, n-argument calls; parenthesised operands nested to the left and to the right of each of 15 binary "
+        "operators of every precedence level, nests of 3 unary operators, the same nests inside a subscript, an actual "
+        "argument and an IF condition, mixed-operator nests, nested function/keyword arguments, sections and "
+        "substrings) and, on the thorough tier, compositions of two families. Metric 1 = Base.__new__ "
         "invocations (M-NEW), metric 2 = Python calls into functions under fparser/ (sys.monitoring); wall time is "
         "recorded only. Violation: some doubling step with n >= 4 multiplies a metric by more than 2^3*1.25 (faster "
         "than cubic), or the budget of 3e6 constructor calls is exceeded below the size bound. non-trivial = a "
@@ -167,7 +170,46 @@ def fam_format_groups(n):
     return _prog("100 format (" + "2(" * n + "i5" + ")" * n + ")")
 
 
+# parenthesised operands nested to the left / to the right of every kind of operator, and nests of unary operators;
+# the same nests inside a subscript, an actual argument and an IF condition
+_BINOPS = {"pow": "**", "mul": "*", "div": "/", "add": "+", "sub": "-", "cat": "//", "eq": "==", "ne": "/=", "lt": ".lt.",
+           "ge": ">=", "and": ".and.", "or": ".or.", "eqv": ".eqv.", "neqv": ".neqv.", "defop": ".myop."}
+_UNOPS = {"not": ".not.", "plus": "+", "defun": ".inv."}
+
+
+def _lnest(op, n):
+    return "(" * n + "a" + (" %s b)" % op) * n
+
+
+def _rnest(op, n):
+    return ("(a %s " % op) * n + "b" + ")" * n
+
+
+def _mk_op_families():
+    fams = {}
+    for key, op in _BINOPS.items():
+        fams["lnest_" + key] = (lambda n, op=op: _prog("x = " + _lnest(op, n)))
+        fams["rnest_" + key] = (lambda n, op=op: _prog("x = " + _rnest(op, n)))
+    for key, op in _UNOPS.items():
+        fams["unest_" + key] = (lambda n, op=op: _prog("x = " + ("%s (" % op) * n + "a" + ")" * n))
+    for key in ("add", "and", "eq"):
+        op = _BINOPS[key]
+        fams["sub_lnest_" + key] = (lambda n, op=op: _prog("v(%s) = 1" % _lnest(op, n)))
+        fams["arg_lnest_" + key] = (lambda n, op=op: _prog("call s(1, %s)" % _lnest(op, n)))
+        fams["if_rnest_" + key] = (lambda n, op=op: _prog("if (%s) x = 1" % _rnest(op, n)))
+    # mixed operators per level
+    ops = [".and.", "+", "==", "//", "**", ".or.", "*"]
+    fams["lnest_mixed"] = lambda n: _prog("x = " + "(" * n + "a" + "".join(" %s b)" % ops[i % len(ops)] for i in range(n)))
+    fams["fn_arg_chain"] = lambda n: _prog("x = " + "f(1, " * n + "a" + ")" * n)
+    fams["section_nest"] = lambda n: _prog("x = " + "a(1:" * n + "2" + ")" * n)
+    fams["struct_call_chain"] = lambda n: _prog("x = a" + "".join("%%c%d(i)" % i for i in range(n)))
+    fams["kw_arg_nest"] = lambda n: _prog("x = " + "f(k = " * n + "1" + ")" * n)
+    fams["char_sub_nest"] = lambda n: _prog("x = " + "c(" * n + "1:2" + ")" * n)
+    return fams
+
+
 FAMILIES = {k[4:]: v for k, v in list(globals().items()) if k.startswith("fam_")}
+FAMILIES.update(_mk_op_families())
 F2008_ONLY = {"block_nest"}
 KNOWN_EXPONENTIAL = {"nonblock_do_action": "nested-non-block-labelled-do"}
 
@@ -185,6 +227,9 @@ def measure(src, std):
             ok = tree is not None
         except monitors.StepBudgetExceeded:
             return None, None, "budget"
+        except RecursionError:
+            # the interpreter's recursion limit, not a growth verdict: larger members are not measured
+            return nm.count, cm.count, "recursion-limit"
         except fp.FortranSyntaxError as e:
             return nm.count, cm.count, "rejected: %s" % str(e)[:80].replace("\n", "|")
         finally:
@@ -201,7 +246,7 @@ def make_payload(rng, idx, tier):
                 continue
             combos.append((f, None, std))
     if tier == "thorough":
-        nest = [f for f in names if f.endswith("_nest") or f in ("parens", "nested_calls")]
+        nest = [f for f in names if f.endswith("_nest") or f in ("parens", "nested_calls", "lnest_and", "rnest_add", "unest_not")]
         for a in nest:
             for b in ("n_sum", "n_assign", "n_args"):
                 combos.append((a, b, "f2008"))
@@ -240,6 +285,8 @@ def check(payload):
         if status == "budget":
             viols.append(viol(known or "step-budget-exceeded:" + name,
                               "%s (%s): more than %d constructor calls at n=%d; counts so far %s" % (name, std, STEP_BUDGET, n, rows)))
+            break
+        if status == "recursion-limit":
             break
         if status.startswith("rejected"):
             # family text not accepted under this standard: not a growth verdict
